@@ -85,10 +85,15 @@ def _run_bounded(args):
 
 
 def load_known():
-    p = os.path.join(ROOT, "known_findings.json")
-    if not os.path.exists(p):
-        return {"findings": [], "fixed": []}
-    return json.load(open(p))
+    import glob
+
+    out = {"findings": [], "fixed": []}
+    for p in [os.path.join(ROOT, "known_findings.json")] + sorted(glob.glob(os.path.join(ROOT, "known_findings.d", "*.json"))):
+        if os.path.exists(p):
+            d = json.load(open(p))
+            out["findings"].extend(d.get("findings", []))
+            out["fixed"].extend(d.get("fixed", []))
+    return out
 
 
 def main(argv=None):
